@@ -227,11 +227,13 @@ class SignatureInfo:
     else:
       assert isinstance(argument, int)
       if (
-          self.var_positional_start is not None
-          and argument < self.var_positional_start
+          self.var_positional_start is None
+          or argument < self.var_positional_start
       ):
+        # `argument` is the index of a positional(-only) parameter.
         params = list(self.parameters.values())
-        param = params[argument]
+        if 0 <= argument < len(params):
+          param = params[argument]
     if param and param.default is not param.empty:
       value = param.default
     return value
